@@ -148,9 +148,9 @@ struct _receiver<Predecessor, Receiver, Func, FuncPolicy>::type {
       // Sequential implementation
       return unifex::then(
           unifex::just(std::forward<Values>(values)...),
-          [this, begin_it, end_it](auto... values) {
+          [func = std::move(func_), begin_it, end_it](auto... values) mutable {
             for (auto it = begin_it; it != end_it; ++it) {
-              if (std::invoke((Func&&)func_, *it, values...)) {
+              if (std::invoke(func, *it, values...)) {
                 return std::tuple<Iterator, Values...>(
                     it, std::move(values)...);
               }
